@@ -142,14 +142,14 @@ def register_flatten(R):
         b = c.ref('self')
         l0 = stages(c.pre, b)
         return [('stage-list-untouched', z3.And(L_.heap.get('stages', b) == c.pre.get('stages', b), stages(L_.heap, b).eq(l0))),
-                ('C02+C03.root-is-the-left-fold-of-the-stages-merged-so-far', L_.t('root') == FoldV(L_.i + 1)),
+                ('C02+C03+C14.root-is-the-left-fold-of-the-stages-merged-so-far', L_.t('root') == FoldV(L_.i + 1)),
                 ('root-is-a-node', z3.And(is_ref(L_.t('root')), r_of(L_.t('root')) > 0, c.eng.isinstance_term(L_.heap.cls(r_of(L_.t('root'))), 'ConfigNode'))),
                 ('classes', _cls_pos(L_.heap, c.pre))]
 
     def ens(c):
         b = c.ref('self')
         l0, l1 = stages(c.pre, b), stages(c.post, b)
-        return [('C02+C03.one-stage-left:the-left-fold-of-all-stages', z3.And(l1.len == 1, l1.get(0) == FoldV(l0.len)))]
+        return [('C02+C03+C14.one-stage-left:the-left-fold-of-all-stages', z3.And(l1.len == 1, l1.get(0) == FoldV(l0.len)))]
 
     def gate_merge(sc, kw):
         # the first-stage new-path check has returned before anything is merged
@@ -161,7 +161,7 @@ def register_flatten(R):
     R.add(Contract(B + 'Builder.flatten', [P.node('self', 'Builder', exact=True)], requires=req,
                    modifies=lambda c: [(f, 'all') for f in STORE + ('stages',)],
                    raises=[Raises('ValueError', name='C02.only-mapping-documents'), Raises('MergeError'), Raises('PremergeError')],
-                   ensures=[('flatten', ens)], props=('C02', 'C03', 'C08'),
+                   ensures=[('flatten', ens)], props=('C02', 'C03', 'C08', 'C14'),
                    loops={0: Loop(inv0, mod_locals=['stage'], mod_fields=[]), 1: Loop(inv1, mod_locals=['root', 'i'], mod_fields=['$mlen', '$mkeyat', '$mpos', '$mval'])},
                    opts={'use': USE, 'no_search': True, 'no_frame': True,
                          'watch': {N + 'ConfigNode.ayns._require_all_new': 'require-new', C + 'ComposedNode.ayns._require_all_new': 'require-new'},
